@@ -20,6 +20,14 @@ Failed(o) ==
               /\ [k \in DOMAIN o.certExts |-> o.certExts[k].oid] # [k \in DOMAIN exp |-> exp[k].oid] THEN {"certExtensionOids"} ELSE {})
      \cup (IF ~o.genFailed /\ ~GenerationFails(exp) /\ (\A k \in DOMAIN o.certExts : o.certExts[k].body # "?") /\ o.certExts # exp
            THEN {"certExtensions"} ELSE {})
+     \* the same pair put into a database and generated the way `sign` does it (db.PlanBulkUpdate + db.BulkUpdate): the merge
+     \* rule holds there too - the run fails exactly when a content-less entry remains, otherwise the certificate carries the
+     \* extensions of MergeSpec in that order
+     \cup (IF "dbRun" \in DOMAIN o /\ o.dbRun
+           THEN (IF o.dbFailed = GenerationFails(exp) THEN {} ELSE {"dbGenerationFails"})
+             \cup (IF ~o.dbFailed /\ ~GenerationFails(exp)
+                      /\ [k \in DOMAIN o.dbCertExts |-> o.dbCertExts[k].oid] # [k \in DOMAIN exp |-> exp[k].oid] THEN {"dbCertExtensionOids"} ELSE {})
+           ELSE {})
 
 Bad == {k \in DOMAIN T : Failed(T[k]) # {}}
 
